@@ -2,6 +2,7 @@ import Driver.Util
 import SymbolVerif.Model.Lint.Regex
 import SymbolVerif.Model.Lint.LineRules
 import SymbolVerif.Model.Lint.Validators
+import SymbolVerif.Model.Lint.Namespace
 import SymbolVerif.Model.Lint.Deps
 import SymbolVerif.Model.Hash.Sha1
 import SymbolVerif.Generated.LintTables
@@ -96,6 +97,13 @@ def handle : Handler
     -- rules whose source matches the source directory, once per row
     let mine := closedRules.filter fun (p, _) => fullMatch (Deps.compileName p) s
     pure (bits (ds.map fun d => Deps.allowed Deps.compileName mine s d))
+  -- nscheck <default|plugin|extension|tools> <unified namespace> <path>: `ruleset.namespace_check`
+  | "nscheck", [rules, ns, path] => do
+    let r ← (match rules with
+      | "default" => some RuleSet.default | "plugin" => some RuleSet.plugin
+      | "extension" => some RuleSet.extension | "tools" => some RuleSet.tools | _ => none)
+    let n ← charsArg ns; let p ← charsArg path
+    pure (toString (namespaceCheck r n p))
   | "closedcount", [] => pure (toString closedRules.length)
   | "spaces", [] =>
     pure (natsOut ((List.range 0x3100).filter fun n => isSpace (Char.ofNat n)))
